@@ -161,6 +161,23 @@ def run_seq(F, req):
                 touch(F, fmt, obj, last, st["touch"])
                 out["steps"].append({"touch": st["touch"]})
                 continue
+            if "export" in st:
+                # ExtraFiles.dump_for_tree(out, variant, arch, basepath): a derived file; its text too must be what a fresh object gives
+                import io
+                v, a, base = st["export"]
+                r = {"export": st["export"]}
+
+                def export(o):
+                    buf = io.StringIO()
+                    o.dump_for_tree(buf, v, a, base)
+                    return buf.getvalue()
+                for key, target in (("text", lambda: obj), ("fresh", lambda: build(F, fmt, spec))):
+                    try:
+                        r[key] = export(target())
+                    except Exception as e:  # noqa
+                        r[key] = "ERR:" + type(e).__name__
+                out["steps"].append(r)
+                continue
             mv = st.get("dump")
             r = {"dump": mv}
             try:
